@@ -36,18 +36,17 @@ passes the certificates (`rankOk`, `productiveB`, `walkCert`), every start node 
   * the repetition rule of the code as it is: a closed bound stops the offer of the body after the `max`-th iteration,
     an open bound never does (`C19_rep_bound_code`); the OLD rule (cap on open bounds, finding F43, fixed by 07eb1fdf)
     survives only as the labelled witness `C19_OLD_RULE_open_bound_is_cap`.
-NOT PROVED, and FALSE of the parser as it is: `PositionsExact` of what the REAL prefix parse hands to the visitor.  The E3
-prefix-mode theorems (`Props/C06.lean`: `C06_prefix_terminates`, `C04_prefix_sound_partial`) do not give it: soundness
-there is `PreL` (every node's children are a prefix of an expansion), which is weaker than `PD` (everything left of the
-right spine is a COMPLETE derivation), it is stated over the compiled rule table, not collapsed to the IR, and
-completeness of the prefix parse is not proved at all.  `C04_prefix_rightmost_path_only_is_false_witness` is the
-parser-level witness that `PD` fails; at message level it needs no empty terminal: `predict` re-parses the history by
-message TYPE, and a type-level parse that the party filter drops later leaves states behind with which the forced
-completion of an unfinished node is advanced again (finding `C19/option-from-tree-that-is-no-partial-derivation`,
-/var/tmp/fixes/C19-option-from-sibling-after-unfinished).  The tie per run: `pdB`, a VERIFIED checker for `PD`
-(`C19_pd_checker`), is evaluated on the right spine of every partial tree the real visitor walks (sampled), and the
-model of the visitor is compared with `PathFinder.forecast` tree by tree; besides implementation = `codeNexts` =
-`nexts` on every enumerated history.
+NOT PROVED: `PositionsExact` of what the REAL prefix parse hands to the visitor.  Its `sound` half was FALSE of the
+parser until 4549536c (finding F68 `C19/option-from-tree-that-is-no-partial-derivation`, found by this check: `predict`
+re-parses the history by message TYPE, and a type-level parse that the party filter drops later left states behind with
+which the forced completion of an unfinished node was advanced again; `C04_prefix_rightmost_path_only_is_false_witness`
+is the parser-level witness for the old rule).  Since the fix (`ParseState.cut_short`) the prefix-mode model proves the
+strong form `C04_prefix_rightmost_path_only` (Props/C06.lean: only the right spine of a yielded partial tree is cut
+short) at the level of the compiled rule table; what remains open is its collapse to the IR-level `PD`, the type-level
+parse plus party filter, and the `complete` half (completeness of the prefix parse).  The tie per run: `pdB`, a
+VERIFIED checker for `PD` (`C19_pd_checker`), is evaluated on the right spine of every partial tree the real visitor
+walks (sampled) — a tree that is no partial derivation is a VIOLATION again — and the model of the visitor is compared
+with `PathFinder.forecast` tree by tree; besides implementation = `codeNexts` = `nexts` on every enumerated history.
 -/
 import Proofs.Forecast
 import Proofs.ForecastSlice
